@@ -21,6 +21,9 @@ type C struct {
 	Echo  func(ctx context.Context, tok int64) (int64, error)
 	Retry func(ctx context.Context, tok int64) (int64, error) `retry:"true" rpc_method:"NS.Echo"`
 	Note  func(tok int64) error                               `notify:"true"`
+	// explicitly NOT tagged: must behave exactly like untagged fields
+	NoRetry   func(ctx context.Context, tok int64) (int64, error) `retry:"false" rpc_method:"NS.Echo"`
+	NotNotify func(tok int64) error                               `notify:"false" rpc_method:"NS.Echo"`
 }
 
 type wireReq struct {
@@ -225,6 +228,8 @@ func HarnessRetry() {
 	var a outcome
 	if tagged {
 		go call(c.Retry, tok, &a)
+	} else if verif.Bool("explicit_false_tag") {
+		go call(c.NoRetry, tok, &a)
 	} else {
 		go call(c.Echo, tok, &a)
 	}
@@ -294,6 +299,12 @@ func HarnessNotify() {
 	verif.Assert(returned == 1 && nerr == nil, "notify-returns-without-response")
 	verif.Assert(st.noID[tok] == 1, "notify-delivered-exactly-once")
 	verif.Assert(!gotID, "notify-carries-no-id")
+	// a field tagged notify:"false" is an ordinary call: it carries an id and waits for its response
+	nn := 0
+	go func() { c.NotNotify(tok); nn++ }()
+	verif.Quiesce()
+	verif.Assert(gotID, "notify-false-is-an-ordinary-call-with-id")
+	verif.Assert(nn == 0, "notify-false-waits-for-its-response")
 	closer()
 	verif.Quiesce()
 	verif.Reach("notify-done")
